@@ -94,3 +94,9 @@ C("C02",
   "Trusted: reference validity predicate; rejection at the OOD check is probabilistic with failure probability <= 2^-45, statement binding of degenerate traces goes through query positions (options with >= 40 bits of position entropy). A finite corruption set is not a soundness proof.",
   "reference-predicate-driven adversarial monitor: cell-by-cell trace corruption and statement perturbation",
   "DESIGN.md §5 C02")
+
+C("C17",
+  "For instances of the C01 family (periodic columns of several cycle lengths, sequence assertions of up to 128 values with zero/non-zero first step, periodic assertions, auxiliary segments, Lagrange kernel, constraint-evaluation blowup below the LDE blowup, every admissible exemption count, eight field/extension types) the real DefaultConstraintEvaluator and CompositionPoly produce sum_i x^(i n) H_i(x) at six random points, one LDE-domain point and one trace-coset point; the definition (transition constraints on naively interpolated trace polynomials over the transition divisor, boundary terms with interpolated assertion values over their divisors, Lagrange-kernel terms) is evaluated independently and must be equal. On every third instance the coefficient-to-constraint assignment is discovered with one-hot coefficient vectors and must be a bijection.",
+  "Trusted: naive interpolation via polynom::interpolate (C20) and field ops (C07/C08); Air::evaluate_transition of the family is the description. The verifier side is pinned by C01 acceptance of the same instances.",
+  "definition oracle at random points + one-hot coefficient discovery",
+  "DESIGN.md §5 C17")
